@@ -11,6 +11,7 @@ Section EnvPause.
   Variable W : Type.
   Variable wsrc : nat -> Z.
   Variable exec : A -> W -> Z -> W * list (cmd A).
+  Variable wfail : W -> bool.
 
   Notation event := (event A).
   Notation env := (env A).
@@ -130,7 +131,7 @@ Section EnvPause.
 
   (** * a cancelled action never runs, in any continuation *)
   Notation state := (W * env)%type.
-  Notation step := (step wsrc exec).
+  Notation step := (step wsrc exec wfail).
 
   (** dispatching a cancelled event changes neither the world nor anything but clock/queue/trace *)
   Theorem step_cancelled_noop w (en : env) e q :
@@ -212,7 +213,7 @@ Section EnvPause.
     destruct (e_act e) as [a|]; [|injection H as <-; auto].
     destruct (exec a w (e_time e)) as [w' cs].
     pose proof (apply_cmds_canc i cs _ C1 K1) as [C2 K2].
-    destruct (apply_cmds wsrc _ cs); injection H as <-; auto.
+    destruct (apply_cmds wsrc _ cs); [destruct (wfail w')|]; injection H as <-; auto.
   Qed.
 
   Inductive reach_from : state -> state -> Prop :=
